@@ -323,14 +323,19 @@ class Climate(Device):
             offset, self.setpoint_shift_min, self.setpoint_shift_max
         )
         base_temperature = self.base_temperature
-        self._setpoint_shift.set(validated_offset)
-        # broadcast new target temperature and set internally
+        # convert before anything is sent - a refused value shall send nothing
+        shift_payload = self._setpoint_shift.to_knx(validated_offset)
+        target_payload = None
         if self.target_temperature.writable and base_temperature is not None:
             # the shift as the datapoint can represent it (eg. whole steps of DPT 6.010)
-            sent_offset = self._setpoint_shift.from_knx(
-                self._setpoint_shift.to_knx(validated_offset)
+            sent_offset = self._setpoint_shift.from_knx(shift_payload)
+            target_payload = self.target_temperature.to_knx(
+                base_temperature + sent_offset
             )
-            self.target_temperature.set(base_temperature + sent_offset)
+        self._setpoint_shift.send_raw(shift_payload)
+        # broadcast new target temperature and set internally
+        if target_payload is not None:
+            self.target_temperature.send_raw(target_payload)
 
     @property
     def target_temperature_max(self) -> float | None:
